@@ -290,12 +290,12 @@ def run(prop, tier, seed, replay=None):
                        extra_files={'mc.cfg': cfg_text(callers, cap, n, ms, mo, mu, feat, invs='TypeOK Exclusive NoLeak TableShape CapOK',
                                                        props='Fresh PutOutcome', drop=True, chk=True, wb=True)})
 
-    # the part of the real-code work that does not depend on TLC (seeded random histories, free-running concurrent
-    # callers) runs while TLC builds the graphs; its recorded histories are then validated by TLC while the graph
-    # histories are replayed
+    # the part of the real-code work that does not depend on TLC (free-running concurrent callers) runs while TLC
+    # builds the graphs; its recorded histories are validated by TLC meanwhile. The seeded random histories run after
+    # the graph histories.
     conc = {'runs': 12 if quick else 80, 'callers': 3, 'ops': 6, 'cap': 2, 'seed': ck.seed}
-    job1 = {'histories': [], 'known': listed,
-            'random': {'n': 150 if quick else 4000, 'seed': ck.seed, 'steps': 30, 'callers': 2, 'cap': 2}, 'conc': conc}
+    randomj = {'n': 150 if quick else 4000, 'seed': ck.seed, 'steps': 30, 'callers': 2, 'cap': 2}
+    job1 = {'histories': [], 'known': listed, 'random': NOJOB_R, 'conc': conc}
 
     def go_raw(job, timeout):
         return gorun.run_harness('^TestVS_StreamPool$', HARNESS, None, inputs={'job': job}, timeout=timeout)
@@ -318,7 +318,7 @@ def run(prop, tier, seed, replay=None):
             outs = [validate_trace(ev, conc['callers'], conc['cap']) for ev in sel]
         return (sel, tr, outs)
 
-    ck.log('TLC: %d configurations%s; random + concurrent runs on the real code in parallel'
+    ck.log('TLC: %d configurations%s; concurrent runs on the real code in parallel'
            % (len(plans), '' if quick else ' + strict/repaired runs'))
     ex = ThreadPoolExecutor(max_workers=12)
     fg = [ex.submit(graph, p) for p in plans]
@@ -343,7 +343,7 @@ def run(prop, tier, seed, replay=None):
         ck.add('transitions', len(edges))
         hs = histories_from_graph(name, plan, nodes, edges, inits)
         total = len(hs)
-        limit = 350 if quick else 6000
+        limit = 250 if quick else 5000
         if len(hs) > limit:
             hs = rng.sample(hs, limit)
         per_plan[name] = (res, len(edges), total, len(hs))
@@ -365,25 +365,35 @@ def run(prop, tier, seed, replay=None):
             if lr.violation and lr.trace:
                 wit.append((slug, history_from_trace('tlc-counterexample-' + slug, pl, lr.trace)))
     ck.log('graphs ready: %d histories to replay (+%d witnesses)' % (len(histories), len(wit)))
-    job2 = {'histories': [h for _, h in wit] + histories, 'known': listed, 'random': NOJOB_R, 'conc': NOJOB_C}
+    job2 = {'histories': [h for _, h in wit] + histories, 'known': listed, 'random': randomj, 'conc': NOJOB_C}
     g2 = go_raw(job2, 900 if quick else 2400)
     ck.log('replay on the real code done')
     g1 = f1.result()
-    for g, what in ((g1, 'random/concurrent'), (g2, 'replay')):
+    EMPTY = {'violations': [], 'drift': [], 'drift_count': 0, 'conforming': 0, 'replayed': 0, 'steps': 0, 'random_runs': 0,
+             'random_steps': 0, 'oracle_evals': {}, 'known_hits': {}, 'samples': [], 'conc_runs': 0, 'conc_ops': 0,
+             'conc_reused': 0, 'conc_traces': []}
+    for g, what in ((g1, 'concurrent'), (g2, 'replay+random')):
         if g.result is None:
-            ck.inconc('harness (%s) produced no result (rc=%d): %s' % (what, g.rc, g.out[-1500:]))
-            return ck.finish()
-    r1, r = g1.result, g2.result
+            # whatever the other run observed is still reported
+            ck.inconc('harness (%s) produced no result (rc=%d%s): %s' % (what, g.rc, ', timeout' if g.timeout else '', g.out[-800:]))
+        elif g.rc != 0:
+            ck.inconc('harness (%s) ended abnormally (rc=%d%s); partial results are reported: %s'
+                      % (what, g.rc, ', timeout' if g.timeout else '', g.out[-600:]))
+    r1, r = g1.result or dict(EMPTY), g2.result or dict(EMPTY)
     wnames = set(h['name'] for _, h in wit)
-    wit_viol = [v for v in r['violations'] if v.get('history') in wnames]
+    HARNESS_KINDS = ('fixture', 'settle', 'server-read', 'hang')
+    wit_viol = [v for v in r['violations'] if v.get('history') in wnames and v['kind'] not in HARNESS_KINDS]
+    for v in r['violations']:
+        if v.get('history') in wnames and v['kind'] in HARNESS_KINDS:
+            ck.inconc('witness %s: harness problem: %s' % (v.get('history'), v['detail']))
     r['violations'] = [v for v in r['violations'] if v.get('history') not in wnames]
     report(ck, r, 'replay')
-    report(ck, r1, 'random/concurrent', conc=conc)
+    report(ck, r1, 'concurrent', conc=conc)
     ck.add('traces_validated_against_impl', r['conforming'])
     ck.cov['histories_replayed_on_real_code'] = r['replayed']
     ck.cov['replay_steps'] = r['steps']
-    ck.cov['random_histories_on_real_code'] = r1['random_runs']
-    ck.cov['random_steps'] = r1['random_steps']
+    ck.cov['random_histories_on_real_code'] = r['random_runs'] + r1['random_runs']
+    ck.cov['random_steps'] = r['random_steps'] + r1['random_steps']
     oe = dict(r['oracle_evals'])
     for k, v in r1['oracle_evals'].items():
         oe[k] = oe.get(k, 0) + v
@@ -403,7 +413,7 @@ def run(prop, tier, seed, replay=None):
     if histories:
         h = histories[len(histories) // 2]
         ck.sample({'tlc_history_replayed_on_real_code': h['name'], 'steps': [fmt_step(s) for s in h['steps']]})
-    for s in r1['samples'][:2]:
+    for s in (r['samples'] + r1['samples'])[:2]:
         ck.sample('random history on real code: ' + s)
 
     # ---- 3. known-finding classes
